@@ -378,6 +378,99 @@ let () =
       Printf.sprintf "%s %s %s" (str_of s) back (hex_of_bytes (le_bytes (nat_of_int w) v))
     | _ -> "BADARGS")
 
+
+(* ------------------------------------------------------------------ MAC histories *)
+let arr_str (l : n list) = "[" ^ String.concat ", " (List.map (fun b -> Printf.sprintf "%02x" (int_of_n b)) l) ^ "]"
+let optn = function None -> "-1" | Some v -> dec_of_n v
+let rf_str (rf : rf_config) = Printf.sprintf "%s/%d/%d/%d" (dec_of_n rf.rf_freq) (int_of_n rf.rf_sf) (int_of_n rf.rf_bw) (int_of_n rf.rf_max_payload)
+let resp_str = function
+  | RNoAck -> "NoAck" | RSessionExpired -> "SessionExpired" | RDownlinkReceived f -> "DownlinkReceived(" ^ dec_of_n f ^ ")"
+  | RNoJoinAccept -> "NoJoinAccept" | RJoinSuccess -> "JoinSuccess" | RNoUpdate -> "NoUpdate" | RRxComplete -> "RxComplete"
+let snapshot (m : mac) =
+  let c = m.m_cfg in
+  let cfg = Printf.sprintf "dr=%d rx1_delay=%s pw=%s rx1off=%d rx2dr=%s rx2f=%s adr=%s"
+    (int_of_n c.cf_data_rate) (dec_of_n c.cf_rx1_delay) (optn c.cf_tx_power) (int_of_n c.cf_rx1_dr_offset)
+    (optn c.cf_rx2_data_rate) (optn c.cf_rx2_frequency) (tok_of_bool c.cf_adr) in
+  let st = (match m.m_state with
+    | Unjoined -> "unjoined" | Otaa (_, _) -> "otaa"
+    | Joined s -> Printf.sprintf "joined addr=%s up=%s down=%s adrcnt=%s conf=%s owed=%s pending=%s nwk=%s app=%s"
+        (dec_of_n s.ss_devaddr) (dec_of_n s.ss_fcnt_up) (optn s.ss_fcnt_down) (dec_of_n s.ss_adr_ack_cnt)
+        (tok_of_bool s.ss_confirmed) (tok_of_bool s.ss_owed_ack) (arr_str s.ss_pending) (arr_str s.ss_nwkskey) (arr_str s.ss_appskey)) in
+  let rg = (match m.m_region.rg_plan with
+    | PDyn p ->
+      let chs = List.map (function None -> "-" | Some c -> Printf.sprintf "%s/%d/%s" (dec_of_n c.ch_freq) (int_of_n c.ch_drs) (optn c.ch_dl)) p.dp_channels in
+      Printf.sprintf "dyn ch=%s mask=%s" (String.concat "," chs) (arr_str p.dp_mask)
+    | PFix p ->
+      let j = p.fp_jc in
+      Printf.sprintf "fix mask=%s jc=%s,%s,%s,%s,%s,%s" (arr_str p.fp_mask) (dec_of_n j.jc_max_retries) (dec_of_n j.jc_num_retries)
+        (optn j.jc_preferred) (arr_str j.jc_avail) (optn j.jc_avail_prev) (dec_of_n j.jc_previous)) in
+  cfg ^ " | " ^ st ^ " | " ^ rg
+let draws_of s = if s = "-" then [] else List.map n_of_dec (String.split_on_char ',' s)
+let tx_str (o : tx_out) =
+  Printf.sprintf "TX pw=%s rf=%s rx1=%s rx2=%s cnt=%s frame=%s" (dec_of_z o.to_tx.tx_pw) (rf_str o.to_tx.tx_rf)
+    (rf_str o.to_rx1) (rf_str o.to_rx2) (dec_of_n o.to_counter) (hex_of_bytes o.to_frame)
+
+exception Stop of string
+let run_mac_history (line : string) : string =
+  let parts = List.map String.trim (String.split_on_char '|' line) in
+  let head = List.filter (fun s -> s <> "") (String.split_on_char ' ' (List.hd parts)) in
+  let r = ref 5 and p = ref 14 and g = ref 0 and bias = ref "-" in
+  List.iter (fun kv -> match String.index_opt kv '=' with
+    | Some i -> let k = String.sub kv 0 i and v = String.sub kv (i + 1) (String.length kv - i - 1) in
+      (match k with "r" -> r := int_of_string v | "p" -> p := int_of_string v | "g" -> g := int_of_string v | "bias" -> bias := v | _ -> ())
+    | None -> ()) (List.tl head);
+  let m0 = mac_new (n_of_int !r) (n_of_int !p) (z_of_int !g) in
+  let m0 = if !bias <> "-" && (!r = 4 || !r = 8) then begin
+      let i = String.index !bias ':' in
+      let sb = int_of_string (String.sub !bias 0 i) and nr = int_of_string (String.sub !bias (i + 1) (String.length !bias - i - 1)) in
+      (match m0.m_region.rg_plan with
+       | PFix fp -> with_region m0 { rg_id = m0.m_region.rg_id;
+                                     rg_plan = PFix { fp_mask = fp.fp_mask;
+                                                      fp_jc = { fp.fp_jc with jc_preferred = Some (n_of_int sb); jc_max_retries = n_of_int nr } } }
+       | _ -> m0)
+    end else m0 in
+  let m = ref m0 in
+  let out = ref [] in
+  (try
+    List.iter (fun op ->
+      let a = List.filter (fun s -> s <> "") (String.split_on_char ' ' op) in
+      match a with
+      | [] -> ()
+      | "otaa" :: de :: ae :: key :: dr :: _ ->
+        (match x_join_otaa !m { cr_deveui = n_of_dec de; cr_appeui = n_of_dec ae; cr_appkey = bytes_of_hex key } (draws_of dr) with
+         | Val o -> m := o.to_mac; out := tx_str o :: !out
+         | Panic -> raise (Stop "PANIC") | OutOfDraws -> raise (Stop "HANG"))
+      | "abp" :: nwk :: app :: addr :: _ ->
+        m := with_state !m (Joined (session_new (bytes_of_hex nwk) (bytes_of_hex app) (n_of_dec addr))); out := "ok" :: !out
+      | "send" :: data :: port :: conf :: dr :: _ ->
+        (match x_send !m (bytes_of_hex data) (ni port) (bool_of_tok conf) (draws_of dr) with
+         | Val (SendOk o) -> m := o.to_mac; out := tx_str o :: !out
+         | Val SendNotJoined -> out := "NotJoined" :: !out
+         | Panic -> raise (Stop "PANIC") | OutOfDraws -> raise (Stop "HANG"))
+      | (("rx" | "rxc") as k) :: h :: snr :: mp :: _ ->
+        let bs = bytes_of_hex h in
+        if List.length bs >= 256 then out := (Printf.sprintf "BufferTooSmall dl=none buf=-") :: !out else
+        (match x_mac_handle_rx !m bs (zi snr) (ni mp) (k = "rxc") with
+         | Val (Some o) ->
+           m := o.mo_mac;
+           let dl = (match o.mo_downlink with None -> "none" | Some (pt, d) -> Printf.sprintf "%d:%s" (int_of_n pt) (hex_of_bytes d)) in
+           out := Printf.sprintf "%s dl=%s buf=%s" (resp_str o.mo_resp) dl (hex_of_bytes o.mo_buf) :: !out
+         | Val None -> out := Printf.sprintf "Err(NotJoined) dl=none buf=%s" (hex_of_bytes bs) :: !out
+         | Panic -> raise (Stop "PANIC") | OutOfDraws -> raise (Stop "HANG"))
+      | "rx2c" :: _ -> let (m', resp) = x_mac_rx2_complete !m in m := m'; out := resp_str resp :: !out
+      | "dr" :: v :: _ -> m := set_datarate !m (ni v); out := "ok" :: !out
+      | "adr" :: v :: _ -> m := set_adr !m (bool_of_tok v); out := "ok" :: !out
+      | "snap" :: _ -> out := snapshot !m :: !out
+      | "delays" :: _ ->
+        out := Printf.sprintf "%s %s %s %s" (dec_of_n (get_rx_delay !m false false)) (dec_of_n (get_rx_delay !m false true))
+                 (dec_of_n (get_rx_delay !m true false)) (dec_of_n (get_rx_delay !m true true)) :: !out
+      | "rxcfg" :: _ ->
+        (match x_rxc_config !m with Val rf -> out := rf_str rf :: !out | Panic -> raise (Stop "PANIC") | OutOfDraws -> raise (Stop "HANG"))
+      | "serde" :: _ -> out := (match !m.m_state with Joined _ -> "restored" | _ -> "nosession") :: !out
+      | _ -> out := "BADOP" :: !out) (List.tl parts)
+  with Stop s -> out := s :: !out);
+  String.concat " ; " (List.rev !out)
+
 let chip_index = function
   | "sx1261" | "sx1262" | "stm32wl" -> 0 | "sx1276" -> 1 | "sx1272" -> 2 | "lr1110" -> 3
   | _ -> failwith "chip"
@@ -403,6 +496,7 @@ let () =
       let out =
         match toks with
         | [] -> ""
+        | "mac" :: _ -> (try run_mac_history line with e -> "DRIVER-EXN " ^ Printexc.to_string e)
         | op :: args ->
           (match Hashtbl.find_opt handlers op with
            | Some f -> (try f args with e -> "DRIVER-EXN " ^ Printexc.to_string e)
